@@ -565,6 +565,14 @@ func (env *Env) call(n *ast.CallExpr) *Val {
 			t := env.evalType(n.Args[1])
 			_, ub, _ := e.boxFuncs(t)
 			return &Val{T: sx(ub, v.T), Ty: t}
+		case "fst", "snd", "third":
+			// components of a multi-value result
+			v := env.eval(n.Args[0])
+			i := map[string]int{"fst": 0, "snd": 1, "third": 2}[id.Name]
+			if v.Tup == nil || i >= len(v.Tup) {
+				specErr("%s of a non-tuple", id.Name)
+			}
+			return v.Tup[i]
 		case "add", "remove":
 			// set update: add(s, x) / remove(s, x) on a ghost set
 			s := env.eval(n.Args[0])
